@@ -2,7 +2,7 @@
   C10 — property theorems.  Field lists, chains (any length), tuple states are arbitrary; nothing is bounded.
   Helper lemmas live in `Proofs/C10*.lean`.
 -/
-import AttrsModel.Proofs.C10Legacy
+import AttrsModel.Proofs.C10Exc
 
 namespace Attrs.C10
 
@@ -70,38 +70,50 @@ theorem C10_legacy_tuple_state (L : Layout) (names : List String) (cache : Bool)
     has the original's current value. -/
 theorem C10_roundtrip (c : Case) (hwf : wf c = true) (hk : known c = []) (hl : isLegacy c.op = false) :
     (model c).exc = none ∧ (model c).distinct = true ∧ (model c).sameClass = true ∧
-    (model c).fields = (summarize c.chain).names.map (fun n => (n, some (cur c n))) := by
-  obtain ⟨i0, x, f, y, W, R, _, _⟩ := run_of_wf hwf hk hl
-  rw [R.model]
-  refine ⟨rfl, rfl, rfl, ?_⟩
-  simp only [observeCopy]
-  apply List.map_congr_left
-  intro n hn
-  rw [R.ok.fields n hn, R.hx n hn]
-  rfl
+    (model c).fields = (summarize (fullChain c)).names.map (fun n => (n, some (cur c n))) := by
+  cases he : c.exc with
+  | false =>
+    obtain ⟨i0, x, f, y, W, R, _, _⟩ := run_of_wf hwf hk hl he
+    rw [R.model]
+    refine ⟨rfl, rfl, rfl, ?_⟩
+    simp only [observeCopy]
+    apply List.map_congr_left
+    intro n hn
+    rw [R.ok.fields n hn, R.hx n hn]
+    rfl
+  | true =>
+    -- exceptions travel as `cls(*args)` + `__setstate__(__dict__)`
+    obtain ⟨x, f, y, hm, hf, _⟩ := exc_run hwf hk hl he
+    rw [hm]
+    refine ⟨rfl, rfl, rfl, ?_⟩
+    simp only [observeCopy]
+    apply List.map_congr_left
+    intro n hn
+    rw [hf n hn]
+    rfl
 
 /-- **C10_cache_not_carried**: through deepcopy and every pickle protocol — and through `copy.copy` whenever
     the class resolves generated or own state methods — the result never holds a cached hash value.  This
     needs no exclusion of known findings: it holds for every well-formed case on which the operation succeeds. -/
-theorem C10_cache_not_carried (c : Case) (hwf : wf c = true) (hl : isLegacy c.op = false)
-    (hop : c.op ≠ .copy ∨ (summarize c.chain).gs ≠ .dflt) : (model c).cacheAfter ≠ .carried := by
+theorem C10_cache_not_carried (c : Case) (hwf : wf c = true) (hl : isLegacy c.op = false) (hnx : c.exc = false)
+    (hop : c.op ≠ .copy ∨ (summarize (fullChain c)).gs ≠ .dflt) : (model c).cacheAfter ≠ .carried := by
   obtain ⟨i0, W⟩ := wf_unpack hwf
-  have I := inv_summarize c.chain
+  have I := inv_summarize (fullChain c)
   obtain ⟨x, hxe, _, _⟩ := history_spec I W c.hashedBefore
   obtain ⟨f, hfe, _, _⟩ := history_spec I W false
   unfold model
-  simp only [hxe, hfe]
-  have key : ∀ r : Except R Inst, r = roundtrip (summarize c.chain) c.op x →
+  simp only [hxe, hfe, hnx, Bool.false_eq_true, if_false]
+  have key : ∀ r : Except R Inst, r = roundtrip (summarize (fullChain c)) c.op x →
       (match r with
         | .error e => failed e
-        | .ok y => observeCopy (summarize c.chain) c x f y).cacheAfter ≠ .carried := by
+        | .ok y => observeCopy (summarize (fullChain c)) c x f y).cacheAfter ≠ .carried := by
     intro r hr
     cases r with
     | error e => simp [failed]
     | ok y =>
       simp only [observeCopy, cacheState]
       have := roundtrip_not_carried I W.ok hr.symm hop
-      cases hc : read (summarize c.chain).layout y CACHE with
+      cases hc : read (summarize (fullChain c)).layout y CACHE with
       | none => simp
       | some v =>
         cases v with
@@ -119,14 +131,22 @@ theorem C10_cache_not_carried (c : Case) (hwf : wf c = true) (hl : isLegacy c.op
     the original and a freshly built equal instance are all hashable, the result hashes equal to the fresh
     instance, and equal to the original unless the original was changed after it had been hashed. -/
 theorem C10_equal_and_hash_equal (c : Case) (hwf : wf c = true) (hk : known c = []) (hl : isLegacy c.op = false) :
-    ((summarize c.chain).eq.isSome = true → (model c).eqOrig = .T) ∧
-    (hashGenerated (summarize c.chain) = true →
+    ((summarize (fullChain c)).eq.isSome = true → (model c).eqOrig = .T) ∧
+    (hashGenerated (summarize (fullChain c)) = true →
       (model c).hashCopy = .ok ∧ (model c).hashFresh = .ok ∧ (model c).hashOrig = .ok ∧
       (model c).hashEqFresh = true ∧
       ((c.hashedBefore && c.mutate.isSome) = false → (model c).hashEqOrig = true)) := by
-  obtain ⟨i0, x, f, y, W, R, hcx, hcf⟩ := run_of_wf hwf hk hl
-  obtain ⟨hk1, hk2, hk5, hoo, _⟩ := known_nil hk hl
-  have I := inv_summarize c.chain
+  cases he : c.exc with
+  | true =>
+    -- auto_exc classes get neither `__eq__` nor `__hash__`: nothing is demanded
+    have E := excInv_of_exc he
+    constructor
+    · intro h; rw [E.noEq] at h; cases h
+    · intro h; unfold hashGenerated at h; rw [E.noHash] at h; cases h
+  | false =>
+  obtain ⟨i0, x, f, y, W, R, hcx, hcf⟩ := run_of_wf hwf hk hl he
+  obtain ⟨hk1, hk2, hk5, hoo, _, _, _⟩ := known_nil hk hl
+  have I := inv_summarize (fullChain c)
   have hk10c := (inh_false I W.lastAttrs hoo).2
   rw [R.model]
   constructor
@@ -134,9 +154,9 @@ theorem C10_equal_and_hash_equal (c : Case) (hwf : wf c = true) (hk : known c = 
     exact doEq_T I R.hx R.ok.fields he
   · intro hg
     obtain ⟨a, b, d, e, g⟩ := hash_facts I W hk1 hk2 hk5 hk10c hg R.hx R.hf hcx hcf R.ok
-    have hid : isIdentity (summarize c.chain) = false := by
+    have hid : isIdentity (summarize (fullChain c)) = false := by
       unfold hashGenerated at hg
-      cases hh : (summarize c.chain).hash with
+      cases hh : (summarize (fullChain c)).hash with
       | identity => rw [hh] at hg; simp at hg
       | unhashable => rw [hh] at hg; simp at hg
       | gen ns ch fv ow => exact isIdentity_gen hh
@@ -148,7 +168,7 @@ theorem C10_equal_and_hash_equal (c : Case) (hwf : wf c = true) (hk : known c = 
 /-- **C10_shallow_cache_consistent**: `copy.copy` may share the wrapper object (dict classes); outside K5 the
     shared value is exactly what the copy would compute from its own fields: it hashes like a fresh instance. -/
 theorem C10_shallow_cache_consistent (c : Case) (hwf : wf c = true) (hk : known c = []) (hop : c.op = .copy)
-    (hg : hashGenerated (summarize c.chain) = true) :
+    (hg : hashGenerated (summarize (fullChain c)) = true) :
     (model c).hashCopy = .ok ∧ (model c).hashEqFresh = true := by
   have hl : isLegacy c.op = false := by rw [hop]; rfl
   obtain ⟨a, _, _, e, _⟩ := (C10_equal_and_hash_equal c hwf hk hl).2 hg
@@ -157,21 +177,21 @@ theorem C10_shallow_cache_consistent (c : Case) (hwf : wf c = true) (hk : known 
 /-- **C10_protocols**: whenever the class resolves a `__getstate__` (generated or its own), or no class of
     the chain has `__slots__`, every operation — copy, deepcopy, every pickle protocol — succeeds on an
     instance whose fields are all set (an opted-out class that inherits a base's pair included: that loses data, it does not raise). -/
-theorem C10_protocols (c : Case) (hwf : wf c = true) (hl : isLegacy c.op = false)
-    (h : (summarize c.chain).gs ≠ .dflt ∨ c.chain.all (fun k => !k.slots) = true) :
+theorem C10_protocols (c : Case) (hwf : wf c = true) (hl : isLegacy c.op = false) (hnx : c.exc = false)
+    (h : (summarize (fullChain c)).gs ≠ .dflt ∨ c.chain.all (fun k => !k.slots) = true) :
     (model c).exc = none := by
   obtain ⟨i0, W⟩ := wf_unpack hwf
-  have I := inv_summarize c.chain
+  have I := inv_summarize (fullChain c)
   obtain ⟨x, hxe, hx, _⟩ := history_spec I W c.hashedBefore
   obtain ⟨f, hfe, _, _⟩ := history_spec I W false
-  have hne : ∀ n ∈ (summarize c.chain).names, n ≠ CACHE := fun n hn => mem_names_ne_cache I W.ok hn
-  have hrt : ∃ y, roundtrip (summarize c.chain) c.op x = .ok y := by
+  have hne : ∀ n ∈ (summarize (fullChain c)).names, n ≠ CACHE := fun n hn => mem_names_ne_cache I W.ok hn
+  have hrt : ∃ y, roundtrip (summarize (fullChain c)) c.op x = .ok y := by
     unfold roundtrip
-    cases hg : (summarize c.chain).gs with
+    cases hg : (summarize (fullChain c)).gs with
     | gen names cache own =>
       simp only
       have hsub := I.gsSub _ _ _ hg
-      obtain ⟨st, hst⟩ := getstateGen_some (L := (summarize c.chain).layout) (i := x) names
+      obtain ⟨st, hst⟩ := getstateGen_some (L := (summarize (fullChain c)).layout) (i := x) names
         (fun n hn => by rw [hx n (hsub n hn)]; rfl)
       rw [hst]
       simp only
@@ -182,24 +202,24 @@ theorem C10_protocols (c : Case) (hwf : wf c = true) (hl : isLegacy c.op = false
         rw [hy]; exact ⟨y, rfl⟩
     | user =>
       simp only
-      obtain ⟨st, hst⟩ := getstateGen_some (L := (summarize c.chain).layout) (i := x) (summarize c.chain).names
+      obtain ⟨st, hst⟩ := getstateGen_some (L := (summarize (fullChain c)).layout) (i := x) (summarize (fullChain c)).names
         (fun n hn => by rw [hx n hn]; rfl)
       rw [hst]
       simp only
-      obtain ⟨y, hy, _⟩ := setstate_of_getstate (cache := (summarize c.chain).cached) c.op hst (cached_writable I)
+      obtain ⟨y, hy, _⟩ := setstate_of_getstate (cache := (summarize (fullChain c)).cached) c.op hst (cached_writable I)
       rw [hy]; exact ⟨y, rfl⟩
     | dflt =>
       rcases h with h | h
       · exact absurd hg h
       · obtain ⟨h1, h2⟩ := chain_no_slots c.chain Summary.init h ⟨rfl, rfl⟩
-        have h1' : (summarize c.chain).slotsAttr = none := h1
-        have h2' : (summarize c.chain).slotNames = [] := h2
+        have h1' : (summarize (fullChain c)).slotsAttr = none := by rw [fullChain_of_not_exc hnx]; exact h1
+        have h2' : (summarize (fullChain c)).slotNames = [] := by rw [fullChain_of_not_exc hnx]; exact h2
         simp only [refuses01, h1', anySlotSet, Summary.layout, h2', List.any_nil, Bool.and_false,
           Bool.false_eq_true, if_false]
         exact ⟨_, rfl⟩
   obtain ⟨y, hy⟩ := hrt
   unfold model
-  simp only [hxe, hfe]
+  simp only [hxe, hfe, hnx, Bool.false_eq_true, if_false]
   cases hop : c.op with
   | legacy len => rw [hop] at hl; simp [isLegacy] at hl
   | copy => simp only; rw [hop] at hy; rw [hy]; rfl
@@ -210,7 +230,7 @@ theorem C10_protocols (c : Case) (hwf : wf c = true) (hl : isLegacy c.op = false
     attrs is concerned (the model gives the same observation); only protocols 0/1 take another path
     (`copyreg.__reduce_ex__`). -/
 theorem C10_high_protocols_agree (c : Case) (p : Nat) (hp : 2 ≤ p) :
-    roundtrip (summarize c.chain) (.pickle p) = roundtrip (summarize c.chain) .deepcopy := by
+    roundtrip (summarize (fullChain c)) (.pickle p) = roundtrip (summarize (fullChain c)) .deepcopy := by
   funext x
   have hlow : isLow (.pickle p) = false := by simp [isLow]; omega
   have htr : transfer (.pickle p) = transfer .deepcopy := by funext v; simp [transfer]
@@ -221,24 +241,24 @@ theorem C10_high_protocols_agree (c : Case) (p : Nat) (hp : 2 ≤ p) :
 /-- **C10_default_reduction_fails_iff** (K11 / K10b are exact): when the class resolves no `__getstate__`, the
     operation raises exactly when CPython refuses (`__slots__` without `__getstate__` at protocols 0/1) or the
     class is frozen and some slot holds a value (restored with `setattr`). -/
-theorem C10_default_reduction_fails_iff (c : Case) (hwf : wf c = true) (hl : isLegacy c.op = false)
-    (hg : (summarize c.chain).gs = .dflt) :
-    (model c).exc.isSome = dfltFails (summarize c.chain) c := by
+theorem C10_default_reduction_fails_iff (c : Case) (hwf : wf c = true) (hl : isLegacy c.op = false) (hnx : c.exc = false)
+    (hg : (summarize (fullChain c)).gs = .dflt) :
+    (model c).exc.isSome = dfltFails (summarize (fullChain c)) c := by
   obtain ⟨i0, W⟩ := wf_unpack hwf
-  have I := inv_summarize c.chain
+  have I := inv_summarize (fullChain c)
   obtain ⟨x, hxe, _, _⟩ := history_spec I W c.hashedBefore
   obtain ⟨f, hfe, _, _⟩ := history_spec I W false
-  have key : (match roundtrip (summarize c.chain) c.op x with
+  have key : (match roundtrip (summarize (fullChain c)) c.op x with
         | .error e => failed e
-        | .ok y => observeCopy (summarize c.chain) c x f y).exc.isSome = dfltFails (summarize c.chain) c := by
+        | .ok y => observeCopy (summarize (fullChain c)) c x f y).exc.isSome = dfltFails (summarize (fullChain c)) c := by
     unfold roundtrip dfltFails
     rw [hg, hxe]
     simp only [beq_self_eq_true, Bool.true_and]
-    cases h1 : (isLow c.op && refuses01 (summarize c.chain)) <;>
-      cases h2 : ((summarize c.chain).frozen && anySlotSet (summarize c.chain).layout x) <;>
-      simp [failed, observeCopy]
+    cases h1 : (isLow c.op && refuses01 (summarize (fullChain c))) <;>
+      cases h2 : ((summarize (fullChain c)).frozen && anySlotSet (summarize (fullChain c)).layout x) <;>
+      simp [failed, observeCopy, hnx]
   unfold model
-  simp only [hxe, hfe]
+  simp only [hxe, hfe, hnx, Bool.false_eq_true, if_false]
   cases hop : c.op with
   | legacy len => rw [hop] at hl; simp [isLegacy] at hl
   | copy => simp only; rw [hop] at key; exact key
@@ -306,6 +326,36 @@ theorem C10_inherited_pair_exact (s : Summary) (I : Inv s) (hok : s.ok = true) (
     · simp [hnn, hx n hn, transfer_tok]
     · simp [hnn]
 
+/-- **C10_exception_roundtrip**: auto_exc classes are not copied through the state methods at all —
+    `BaseException.__reduce__` rebuilds the instance as `cls(*args)` (the generated `__init__` runs again on the
+    values recorded at construction) and hands the instance `__dict__` to `__setstate__`.  Outside K10d / K10e
+    (all fields set, nothing that lives only in a slot changed or was added after construction, no frozen class
+    restored through `setattr`) every field — stored in a slot or in `__dict__`, own or inherited, changed in
+    place or by assignment — comes back, for arbitrary chains and field lists, and no cache attribute appears. -/
+theorem C10_exception_roundtrip (c : Case) (hwf : wf c = true) (hk : known c = []) (hl : isLegacy c.op = false)
+    (he : c.exc = true) :
+    (model c).exc = none ∧
+    (model c).fields = (summarize (fullChain c)).names.map (fun n => (n, some (cur c n))) ∧
+    (model c).cacheAfter = .absent := by
+  obtain ⟨x, f, y, hm, hf, hcache⟩ := exc_run hwf hk hl he
+  rw [hm]
+  refine ⟨rfl, ?_, by simp [observeCopy, cacheState, hcache]⟩
+  simp only [observeCopy]
+  apply List.map_congr_left
+  intro n hn
+  rw [hf n hn]
+  rfl
+
+/-- **C10_init_placement**: what the generated `__init__` of a non-caching class with a `__dict__` leaves, for an
+    arbitrary field list: attribute lookup afterwards finds exactly the init fields that the frozen-dict store
+    technique did not put under a shadowing slot (K3) — and the init=False fields iff they were assigned. -/
+theorem C10_init_placement (s : Summary) (hd : s.hasDict = true) (hlc : s.lastCache = false)
+    (tokOf : String → String) (au : Bool) :
+    ∃ i, construct s tokOf au = some i ∧ ∀ m, read s.layout i m =
+      if m ∈ uninitNames s ∧ au = true then some (.tok (tokOf m))
+      else if m ∈ initNames s ∧ misplaced s m = false then some (.tok (tokOf m)) else none :=
+  construct_read hd hlc tokOf au
+
 /-! ### model ⇒ specification -/
 
 /-- **C10_model_meets_spec**: on every well-formed case outside the listed known findings the model
@@ -326,10 +376,10 @@ theorem C10_model_meets_spec (c : Case) (hwf : wf c = true) (hk : known c = []) 
     simp only [h1, h2, h3, h4, beq_self_eq_true, Bool.true_and, Bool.and_eq_true, Bool.or_eq_true,
       Bool.not_eq_true', bne_iff_ne, ne_eq, beq_iff_eq]
     refine ⟨⟨?_, ?_⟩, ?_⟩
-    · cases hs : (summarize c.chain).eq.isSome with
+    · cases hs : (summarize (fullChain c)).eq.isSome with
       | true => right; exact he hs
       | false => left; simpa using hs
-    · cases hg : hashGenerated (summarize c.chain) with
+    · cases hg : hashGenerated (summarize (fullChain c)) with
       | false => left; rfl
       | true =>
         right
@@ -340,7 +390,13 @@ theorem C10_model_meets_spec (c : Case) (hwf : wf c = true) (hk : known c = []) 
         | false => right; exact g hnm
     · by_cases hop : c.op = .copy
       · left; exact hop
-      · right; exact C10_cache_not_carried c hwf hl (Or.inl hop)
+      · right
+        cases hexc : c.exc with
+        | false => exact C10_cache_not_carried c hwf hl hexc (Or.inl hop)
+        | true =>
+          obtain ⟨x, f, y, hm, _, hcache⟩ := exc_run hwf hk hl hexc
+          rw [hm]
+          simp [observeCopy, cacheState, hcache]
 
 end Attrs.C10
 
@@ -363,7 +419,8 @@ def plainSlotted (names : List String) : Cls :=
   { dictCls [] with kind := .plain, slots := true, plainSlots := names }
 
 def mk (chain : List Cls) (op : Op) (hashed : Bool := false) (mutate : Option String := none) : Case :=
-  { chain := chain, op := op, hashedBefore := hashed, mutate := mutate, assignUnset := true }
+  { chain := chain, op := op, hashedBefore := hashed, mutate := mutate, assignUnset := true, exc := false,
+    mutInPlace := false }
 
 /-- former K4 (repaired): `A(slots; x) ← B(dict; y)`: `B` now gets its own state methods, `y` travels -/
 def k4Witness : Case := mk [slotCls [fX], dictCls [fY]] .copy
@@ -447,5 +504,41 @@ example :
     wf c = true ∧ known c = [] ∧ (model c).fields = [("x", some "v_x"), ("y", some "v_y")] ∧
       (model c).hashEqFresh = true ∧ (model c).cacheAfter = .isNone := by
   refine ⟨by decide, by decide, by decide, by decide, by decide⟩
+
+/-- K10d: `@attr.s(auto_exc=True, frozen=True) class E(Exception): x = attr.ib()` — every copy raises -/
+def k10dWitness : Case := { mk [{ dictCls [fX] with frozen := true }] .copy with exc := true }
+/-- K10e: a slotted auto_exc class whose field `x` was assigned after construction: the copy has the old value -/
+def k10eWitness : Case := { mk [slotCls [fX]] .deepcopy false (some "x") with exc := true }
+/-- K10e, init=False form: the field is unset on the copy -/
+def k10eUnsetWitness : Case :=
+  { mk [slotCls [fX, { name := "y", init := false, kind := .int }]] (.pickle 2) with exc := true }
+
+theorem C10_known_K10d_witness :
+    wf k10dWitness = true ∧ known k10dWitness = ["K10d"] ∧ spec k10dWitness (model k10dWitness) = false ∧
+    (model k10dWitness).exc = some .frozenInstance := by
+  refine ⟨by decide, by decide, by decide, by decide⟩
+
+theorem C10_known_K10e_witness :
+    wf k10eWitness = true ∧ known k10eWitness = ["K10e"] ∧ spec k10eWitness (model k10eWitness) = false ∧
+    (model k10eWitness).fields = [("x", some "v_x")] ∧
+    wf k10eUnsetWitness = true ∧ known k10eUnsetWitness = ["K10e"] ∧
+    (model k10eUnsetWitness).fields = [("x", some "v_x"), ("y", none)] := by
+  refine ⟨by decide, by decide, by decide, by decide, by decide, by decide, by decide⟩
+
+/-- non-vacuity for exceptions: a slotted exception below a dict exception, one field changed *in place*, fields
+    in `__dict__` assigned later — everything comes back; and the frozen dict class with `getstate_setstate=True`
+    (generated `__setstate__` instead of `BaseException.__setstate__`) is fine -/
+example :
+    let c : Case := { mk [dictCls [fX, { name := "y", init := false, kind := .int }],
+                          slotCls [{ name := "z", init := true, kind := .box }]] (.pickle 0) false (some "z")
+                      with exc := true, mutInPlace := true }
+    wf c = true ∧ known c = [] ∧
+      (model c).fields = [("x", some "v_x"), ("y", some "v_y"), ("z", some "m_z")] := by
+  refine ⟨by decide, by decide, by decide⟩
+
+example :
+    let c : Case := { mk [{ dictCls [fX] with frozen := true, gs := .t }] .copy with exc := true }
+    wf c = true ∧ known c = [] ∧ (model c).fields = [("x", some "v_x")] := by
+  refine ⟨by decide, by decide, by decide⟩
 
 end Attrs.C10
